@@ -223,6 +223,10 @@ class C19(Check):
                 scn["fmt"][k] = G.gen_fmt(rng, d, rich=False)
         if rng.random() < 0.4:
             scn["preread"] = rng.randrange(1 << 20)  # another read (other targets, same directories) earlier in the same process
+        if rng.random() < 0.15:
+            dn = rng.choice([("zz_overlay", "aa_upstream"), ("aa_overlay", "zz_upstream"), ("m1", "m0"), ("B", "a"), ("x", "x2")])
+            scn["overlay"] = {"dirs": list(dn), "deep": rng.random() < 0.5, "cwd": rng.choice(["", "w", "w/ov"]),
+                              "steps": rng.sample(["valid", "garbage", "rule", "print", "same"], rng.randint(2, 4))}
         return scn
 
     def execute(self, scn: dict) -> Outcome:
@@ -355,6 +359,8 @@ class C19(Check):
                     out.fail("C19.invariance", "read %d differs from read 0 after out-of-closure edits %s: read 0 %s, read %d %s" % (
                         i, [e.get("kind") for b in scn["edits"][:i] for e in b], base, i, what),
                         "changed:" + ("ok" if r["ok"] else type(r["exc"]).__name__))
+            if scn.get("overlay"):
+                self._overlay(out, w, scn["overlay"])
             out.nontrivial = listed > 0
             out.shape = digest([scn["reads"][0]["op"], min(listed, 4), sorted({k.split(":")[0] for k in kinds}), sorted(kinds)[:1], closure_err, len(uni.roots)])
             for k in kinds:
@@ -364,6 +370,40 @@ class C19(Check):
         finally:
             w.close()
         return out
+
+
+def _overlay(self, out, w, ov: dict) -> None:
+    """Two directories hold the same root namespace (an overlay above a vendored upstream copy) with a file at the same relative
+    path; the target is given relative to the namespace, so it is the copy under the FIRST listed root (documented: the order of the
+    root list matters). The copy under the other root is not in the closure: whatever its text, the result is the same."""
+    import os
+    from ..worlds.workspace import classify_exc
+    dirs = {"a": "w/ov/%s/ovl_ns" % ov["dirs"][0], "b": "w/ov/%s/ovl_ns" % ov["dirs"][1]}
+    rel = "sub/Thing.1.0.dsdl" if ov["deep"] else "Thing.1.0.dsdl"
+    w.write(dirs["a"] + "/" + rel, "uint8 first_listed_value\n@sealed\n")
+    texts = {"valid": "uint16 other_copy_value\nuint16 more\n@sealed\n", "garbage": "%%% not dsdl at all\n", "rule": "uint8 a\nuint8 a\n@sealed\n", "print": "@print 77\nuint32 x\n@sealed\n",
+             "same": "uint8 first_listed_value\n@sealed\n"}
+    out.stats["overlay_runs"] += 1
+    for step in ov["steps"]:
+        w.write(dirs["b"] + "/" + rel, texts[step])
+        roots = [{"p": dirs["a"]}, {"p": dirs["b"]}]
+        res = w.run_read({"op": "rf", "files": [{"p": "ovl_ns/" + rel, "st": "raw"}], "roots": roots, "lookups": [], "key": None, "cwd": ov["cwd"]})
+        out.stats["reads"] += 1
+        out.obs.append(["overlay", step, "ok" if res["ok"] else classify_exc(res["exc"])])
+        if not res["ok"]:
+            out.fail("C19.invariance", "overlay: the target (relative path, roots %s listed in this order) was read with the OTHER root's copy holding %s text; the call raised %s: %s" % (
+                list(ov["dirs"]), step, type(res["exc"]).__name__, str(res["exc"])[:200]), "overlay:" + type(res["exc"]).__name__)
+            continue
+        got = [(str(t), [f.name for f in t.fields]) for t in res["direct"]]
+        name = "ovl_ns.sub.Thing.1.0" if ov["deep"] else "ovl_ns.Thing.1.0"
+        if got != [(name, ["first_listed_value"])] or res["transitive"] or res["prints"]:
+            out.fail("C19.invariance", "overlay: roots %s listed in this order, other copy holds %s text: got %s (prints %s), expected the copy under the first listed root" % (
+                list(ov["dirs"]), step, got, res["prints"][:1]), "overlay-differs")
+        elif not os.path.samefile(str(res["direct"][0].source_file_path), w.abs(dirs["a"] + "/" + rel)):
+            out.fail("C19.invariance", "overlay: the type comes from %s, not from the first listed root" % w.rel(res["direct"][0].source_file_path), "overlay-source")
+
+
+C19._overlay = _overlay
 
 
 def uni_text_placeholder() -> str:
